@@ -11,6 +11,7 @@ import Qv.Drv.C08
 import Qv.Drv.C13
 import Qv.Drv.C06
 import Qv.Drv.C04
+import Qv.Drv.C20
 /-! Line protocol: `<op> <json>` per line in, one JSON document per line out. -/
 open Lean
 
@@ -33,7 +34,12 @@ def handlers : List (String × (Json → Except String Json)) := [
   ("C06.call", Qv.Drv.C06.callJ),
   ("C06.inter", Qv.Drv.C06.interJ),
   ("C06.func_args", Qv.Drv.C06.funcArgsJ),
-  ("C04.analyze", Qv.Drv.C04.analyzeJ)
+  ("C04.analyze", Qv.Drv.C04.analyzeJ),
+  ("C20.ladder", Qv.Drv.C20.ladderJ),
+  ("C20.spin", Qv.Drv.C20.spinJ),
+  ("C20.gates", Qv.Drv.C20.gatesJ),
+  ("C20.hadamard", Qv.Drv.C20.hadamardJ),
+  ("C20.basis", Qv.Drv.C20.basisJ)
 ]
 
 def handle (line : String) : String :=
